@@ -149,11 +149,11 @@ fn main() {
                 };
                 scen::graph_scenario(i, &mut srng, &o, family)
             }
-            "doc" | "doctext" | "docinv" | "histdoc" | "reload" | "rollback" | "iso" | "diff" | "patch" | "ids" | "idshi" | "migrate" | "badargs" | "isorich" | "serde" | "bulk" | "spans" | "anon" | "reloadlong" | "histlong" | "difflong" | "autofront" => {
+            "doc" | "doctext" | "docinv" | "histdoc" | "reload" | "rollback" | "iso" | "diff" | "patch" | "ids" | "idshi" | "migrate" | "badargs" | "isorich" | "serde" | "bulk" | "spans" | "anon" | "reloadlong" | "histlong" | "difflong" | "autofront" | "patchtext" => {
                 if family == "isorich" {
                     amverif::proj::set_rich(true);
                 }
-                let text = family == "doctext" || (family == "autofront" && i % 2 == 1);
+                let text = family == "doctext" || family == "patchtext" || (family == "autofront" && i % 2 == 1);
                 let mut prof = Profile::all();
                 if family == "docinv" || family == "autofront" {
                     prof.invalid_pct = 30;
@@ -221,7 +221,7 @@ fn main() {
                     reload_before_readat: family == "reload",
                     rollback_pct: if family == "rollback" { 45 } else { 0 },
                     diffs: if family == "diff" { 6 } else if family == "difflong" { 10 } else { 0 },
-                    log_patches: family == "patch",
+                    log_patches: family == "patch" || family == "patchtext",
                     steps: if family == "reloadlong" || family == "histlong" || family == "difflong" { 45 + srng.below(25) } else { 8 + srng.below(10) },
                     max_reps: 3,
                     max_changes: if family == "reloadlong" || family == "histlong" || family == "difflong" { 40 } else { 10 },
